@@ -39,13 +39,14 @@ WATCHDOG_S = 5.0
 
 CORPUS = [
     # fixed by 66ffd57: must classify quickly now
-    {"kind": "dynamic_time", "value": '"' + "{{}}" * 800 + '"|x', "trigger": T_DYN, "limit_s": 0.5},
+    {"kind": "time", "target": "dynamic", "text": '"' + "{{}}" * 2000 + '"|x', "trigger": T_DYN},
     # fixed by d8e2fba (MAX_NESTING_DEPTH): was RecursionError in _extract_flags -> serialize for deeply nested literals
     {"kind": "template", "source": "{% component 'x' a=" + "[" * 500 + "]" * 500 + " / %}", "trigger": T_NEST},
     {"kind": "parse_serialize", "text": "a=" + "[" * 600 + "]" * 600, "trigger": T_NEST},
     # seeded change C12a (dict nested in a dict skipped the depth check): dict-in-dict beyond the limit
     {"kind": "parse_serialize", "text": "a=" + "{k:" * 600 + "1" + "}" * 600, "trigger": T_NEST},
     {"kind": "parse_serialize", "text": "a=" + "{**" * 600 + "x" + "}" * 600, "trigger": T_NEST},
+    {"kind": "parse_serialize", "text": "a=" + "[*" * 600 + "x" + "]" * 600, "trigger": T_NEST},
     # fixed by 6a8d16e: component tag_fn called Token.split_contents(), which raises StopIteration for `_("x")|filter`
     {"kind": "template", "source": "{% component 'x' a=1 _(\"b c\")|lower:'x' k=2 %}{% endcomponent %}", "trigger": T_SPLIT},
     {"kind": "template", "source": "{% component 'x' _('b')|upper / %}", "trigger": T_SPLIT},
@@ -83,6 +84,7 @@ class Hang(BaseException):
 
 
 class deadline:
+    """deadline on the CPU time of the process (ITIMER_PROF), never on wall time: load / swapping cannot fake a hang"""
     hangs = 0
 
     def __init__(self, seconds=WATCHDOG_S):
@@ -90,19 +92,19 @@ class deadline:
 
     def _fire(self, *a):
         deadline.hangs += 1
-        raise Hang("no result after %.0f s" % self.seconds)
+        raise Hang("no result after %.0f s of CPU time" % self.seconds)
 
     def __enter__(self):
         import signal
         if deadline.hangs >= 3:          # three calls already ran into the deadline: report, do not wait for thousands more
             raise Hang("skipped after 3 hangs")
-        self.old = signal.signal(signal.SIGALRM, self._fire)
-        signal.setitimer(signal.ITIMER_REAL, self.seconds)
+        self.old = signal.signal(signal.SIGPROF, self._fire)
+        signal.setitimer(signal.ITIMER_PROF, self.seconds)
 
     def __exit__(self, *a):
         import signal
-        signal.setitimer(signal.ITIMER_REAL, 0)
-        signal.signal(signal.SIGALRM, self.old)
+        signal.setitimer(signal.ITIMER_PROF, 0)
+        signal.signal(signal.SIGPROF, self.old)
         return False
 
 
@@ -379,7 +381,7 @@ def hang_sweep(chk, thorough):
                 r, o = r2, r2["outcome"]
         if o in ("HANG", "HANG-HARD"):
             nh += 1
-            chk.fail(T_HANG, "%s did not return within %.0f s on a %d-character input (family %s, k=%d)" % (c["target"], WATCHDOG_S, len(c["text"]), c["family"], c["k"]),
+            chk.fail(T_HANG, "%s used more than %.0f s of CPU time on a %d-character input (family %s, k=%d)" % (c["target"], WATCHDOG_S, len(c["text"]), c["family"], c["k"]),
                      {"kind": "time", "target": c["target"], "text": c["text"], "limit_s": WATCHDOG_S, "family": c["family"], "k": c["k"]})
         elif o not in ("ok", "TemplateSyntaxError"):
             chk.fail(time_case_trigger(c, o), "%s raised %s (family %s, k=%d)" % (c["target"], o, c["family"], c["k"]),
@@ -399,17 +401,25 @@ def _sized(fam, n):
     return fam(max(1, n // unit))
 
 
-def _ratio_bad(ts):
-    """quadratic growth: x4 length => x16 time and x2 => x4.  Reported when the x4 run exceeds 3 * 16 times the x1 run (1 ms floor,
-    10 ms allowance against timer noise) AND 1.5 * 4 times the x2 run - cubic growth gives 64 and 8.  (Both, because a family
-    need not grow regularly: a step between two sizes is not a growth rate.)"""
-    base = max(ts[0], 0.001)
-    return ts[2] > 3 * 16 * base + 0.01 and ts[2] > 1.5 * 4 * max(ts[1], 0.001) + 0.01
+GROWTH = 6.0         # a doubling of the length may multiply the CPU time by 4 (quadratic); 6 leaves 50% slack, cubic gives 8
+T_FLOOR = 0.5        # seconds of CPU time the largest run must reach before growth is judged at all
+
+
+def _superquadratic(ts):
+    """the last TWO successive doublings both multiplied the CPU time by more than GROWTH and the largest run took more than
+    T_FLOOR seconds (minimum over the repetitions, CPU time of the call only).  Anything weaker is an observation."""
+    return len(ts) >= 3 and ts[-1] > T_FLOOR and ts[-1] > GROWTH * ts[-2] and ts[-2] > GROWTH * max(ts[-3], 1e-4)
+
+
+def _growing(ts):
+    """both of the last two doublings above GROWTH but the absolute time still below the floor: worth another doubling"""
+    return len(ts) >= 3 and ts[-1] <= T_FLOOR and ts[-1] > GROWTH * max(ts[-2], 1e-4) and ts[-2] > GROWTH * max(ts[-3], 1e-4)
 
 
 def scaling(chk, thorough):
-    """wall time at n0, 2*n0, 4*n0 per (family, target); n0 chosen per family from a probe at 500 characters so that the
-    smallest run is measurable (>= ~2 ms if linear) and the largest stays below ~1.5 s if quadratic"""
+    """CPU time (minimum of 3 repetitions, in a child process, gc disabled) at n0, 2*n0, 4*n0 per (family, target); n0 chosen per
+    family from a probe at 500 characters so that the smallest run is measurable (>= ~2 ms if linear) and the largest stays below
+    ~0.3 s if quadratic; further doublings while the growth looks super-quadratic.  Reported only per _superquadratic."""
     pairs = []
     for i, (name, fam) in enumerate(T.FAMILIES_TAG.items()):
         pairs.append((name, "parse_tag", fam))
@@ -419,7 +429,7 @@ def scaling(chk, thorough):
         pairs.append((name, "parse_template", fam))
         pairs.append((name, "template", fam))
     limit = 20.0
-    probe = T.run_cases([{"target": tg, "text": _sized(f, 500)} for _, tg, f in pairs], limit=limit, max_hangs=2)
+    probe = T.run_cases([{"target": tg, "text": _sized(f, 500), "reps": 2} for _, tg, f in pairs], limit=limit, max_hangs=2)
     jobs = []
     for (name, tg, f), pr in zip(pairs, probe):
         if pr["outcome"] in ("HANG", "HANG-HARD", "DIED"):
@@ -432,7 +442,7 @@ def scaling(chk, thorough):
             continue
         t500 = max(pr["secs"], 2e-5)
         want = 500 * 0.002 / t500                      # length at which a linear scanner needs 2 ms
-        cap = 500 * (1.5 / t500) ** 0.5 / 4            # length n0 at which a quadratic one needs 1.5 s for 4*n0
+        cap = 500 * (0.3 / t500) ** 0.5 / 4            # length n0 at which a quadratic one needs 0.3 s for 4*n0
         n0 = 250
         while n0 * 2 <= min(want, cap, 16000):
             n0 *= 2
@@ -440,7 +450,7 @@ def scaling(chk, thorough):
     cases = []
     for name, tg, f, n0 in jobs:
         for m in (1, 2, 4):
-            cases.append({"target": tg, "text": _sized(f, n0 * m), "reps": 3 if thorough else 2})
+            cases.append({"target": tg, "text": _sized(f, n0 * m), "reps": 3})
     # a few independent children side by side (each case is timed alone inside its child)
     nproc = max(1, min(4, C.NCPU // 4))
     chunks = [list(range(i, len(jobs), nproc)) for i in range(nproc)]
@@ -461,42 +471,52 @@ def scaling(chk, thorough):
         if any(r["outcome"] == "SKIPPED" for r in rs):
             chk.extra["scaling_skipped"] = "a child stopped after 2 hangs"
             continue
+        chk.count(("scaling", name, tg), True, kind="scaling")
         ts = [r["secs"] for r in rs]
-        hang = [r["outcome"] for r in rs if r["outcome"] in ("HANG", "HANG-HARD", "DIED")]
-        same = len({r["outcome"] for r in rs}) == 1      # a family whose outcome class changes with the size is not a growth series
-        if not same:
-            chk.extra.setdefault("scaling_not_judged (outcome class differs between sizes)", []).append("%s/%s" % (name, tg))
-        bad = bool(hang) or (same and _ratio_bad(ts))
+        outs = [r["outcome"] for r in rs]
+        sizes = [n0, 2 * n0, 4 * n0]
+        texts = [cases[3 * j + m]["text"] for m in range(3)]
+        # growth looks super-quadratic but the runs are still short: keep doubling until it either flattens or becomes slow
+        while _growing(ts) and len(ts) < 9 and "HANG" not in outs[-1] and outs[-1] != "DIED":
+            n = sizes[-1] * 2
+            text = _sized(f, n)
+            r = T.run_cases([{"target": tg, "text": text, "reps": 3}], limit=limit)[0]
+            sizes.append(n)
+            texts.append(text)
+            ts.append(r["secs"])
+            outs.append(r["outcome"])
+        hang = [o for o in outs if o in ("HANG", "HANG-HARD", "DIED")]
+        bad = bool(hang) or _superquadratic(ts)
         if bad:
-            # measure again, alone, before reporting
-            again = T.run_cases([dict(cases[3 * j + m], reps=4) for m in range(3)], limit=limit)
-            ts2 = [r["secs"] for r in again]
+            # measure the last three sizes again, alone, before reporting
+            again = T.run_cases([{"target": tg, "text": t_, "reps": 5} for t_ in texts[-3:]], limit=limit)
+            ts2 = ts[:-3] + [r["secs"] for r in again]
             hang = [r["outcome"] for r in again if r["outcome"] in ("HANG", "HANG-HARD", "DIED")]
             chk.extra.setdefault("scaling_remeasured", []).append({"family": name, "target": tg, "first": ts, "second": ts2})
-            ts, bad = ts2, bool(hang) or (same and _ratio_bad(ts2))
-        table["%s/%s" % (name, tg)] = {"n0": n0, "times_n_2n_4n": [round(x, 5) for x in ts]}
-        chk.count(("scaling", name, tg), True, kind="scaling")
-        for r, m in zip(rs, (1, 2, 4)):
-            if r["outcome"] not in ("ok", "TemplateSyntaxError", "HANG", "HANG-HARD", "DIED"):
-                text = cases[3 * j + (0 if m == 1 else 1 if m == 2 else 2)]["text"]
-                chk.fail(time_case_trigger({"target": tg, "text": text}, r["outcome"]), "%s raised %s on family %s at %d characters" % (tg, r["outcome"], name, len(text)),
-                         {"kind": "time", "target": tg, "text": text, "exception": r["outcome"]})
+            ts, bad = ts2, bool(hang) or _superquadratic(ts2)
+        table["%s/%s" % (name, tg)] = {"sizes": sizes, "cpu_s": [round(x, 5) for x in ts], "outcomes": sorted(set(outs))}
+        if len(ts) >= 3 and not bad and ts[-1] > GROWTH * GROWTH * max(ts[-3], 1e-3):
+            chk.extra.setdefault("scaling_observations (not judged)", []).append({"family": name, "target": tg, "sizes": sizes, "cpu_s": ts})
+        for o, text in zip(outs, texts):
+            if o not in ("ok", "TemplateSyntaxError", "HANG", "HANG-HARD", "DIED"):
+                chk.fail(time_case_trigger({"target": tg, "text": text}, o), "%s raised %s on family %s at %d characters" % (tg, o, name, len(text)),
+                         {"kind": "time", "target": tg, "text": text, "exception": o})
         if bad:
-            text = cases[3 * j + 2]["text"]
-            what = ("%s did not return within %.0f s" % (tg, limit)) if hang else ("wall time of %s grows faster than quadratically" % tg)
-            chk.fail(T_TIME, "%s on family %s (lengths %d, %d, %d: %s s)" % (what, name, n0, 2 * n0, 4 * n0, [round(x, 4) for x in ts]),
-                     {"kind": "scaling", "family": name, "target": tg, "n0": n0, "times_n_2n_4n": ts,
-                      "text_n": cases[3 * j]["text"], "text_4n_len": len(text)})
-    chk.extra["scaling_times_n_2n_4n"] = table
+            what = ("%s used more than %.0f s of CPU time" % (tg, limit)) if hang else \
+                   ("CPU time of %s grows faster than quadratically over two successive doublings" % tg)
+            chk.fail(T_TIME, "%s on family %s (lengths %s: %s s)" % (what, name, sizes[-3:], [round(x, 4) for x in ts[-3:]]),
+                     {"kind": "scaling", "family": name, "target": tg, "sizes": sizes, "cpu_s": ts, "text_smallest": texts[0][:2000]})
+    chk.extra["scaling_cpu_s"] = table
 
 
 # ---------------------------------------------------------------------------------------------
 def _t(fn, reps=3):
+    """minimum CPU time of the call over the repetitions"""
     best = None
     for _ in range(reps):
-        t0 = time.perf_counter()
+        t0 = time.process_time()
         fn()
-        dt = time.perf_counter() - t0
+        dt = time.process_time() - t0
         best = dt if best is None else min(best, dt)
     return best
 
@@ -505,9 +525,9 @@ def run_corpus_case(chk, c):
     kind = c["kind"]
     if kind == "dynamic_time":
         from django_components.expression import is_dynamic_expression
-        t = _t(lambda: is_dynamic_expression(c["value"]), reps=2)
+        t = _t(lambda: is_dynamic_expression(c["value"]), reps=3)
         chk.count(("corpus", kind), True, kind="corpus")
-        if t > c.get("limit_s", 0.5):
+        if t > max(2.0, c.get("limit_s", 2.0)):
             chk.fail(c["trigger"], "is_dynamic_expression takes %.2f s on a %d-character value" % (t, len(c["value"])),
                      {"kind": kind, "value": c["value"], "seconds": t})
     elif kind == "template":
@@ -584,7 +604,7 @@ def run(tier, seed):
     import djsetup
     djsetup.setup()
     import gen_constants
-    gen_constants.generate(["C12"])
+    gen_constants.generate(["C12", "C09"])   # C09: the Lexer model imported by template_lexing_total
     chk = C.Check("C12", tier, seed)
     chk.prove()
     thorough = tier == "thorough"
@@ -641,7 +661,8 @@ def run(tier, seed):
             for k in (3, 7):
                 add(fam(k), "family")
         deep = ["a=" + "[" * d + "]" * d for d in (250, 400, 600, 1500)] + ["{k:" * 700 + "1" + "}" * 700, "a=" + "{k:" * 450 + "1" + "}" * 450,
-                                                                          "a=" + "{**" * 500 + "x" + "}" * 500, "a=[" + "{k:[" * 300 + "1" + "]}" * 300 + "]"]
+                                                                          "a=" + "{**" * 500 + "x" + "}" * 500, "a=[" + "{k:[" * 300 + "1" + "]}" * 300 + "]",
+                                                                          "a=" + "[*" * 600 + "x" + "]" * 600, "..." + "[" * 600 + "]" * 600, "a={k:" + "[*[" * 300 + "1" + "]]" * 300 + "}"]
 
         terms, cases = [], []
         rt_terms, rt_cases = [], []
@@ -865,7 +886,7 @@ def run(tier, seed):
         "CPython recursion limit 1000 and two frames per serialize level, i.e. >= 101 levels are available wherever a tag is parsed (MAX_NESTING_DEPTH = %d)" % DEPTH_CLASS,
         "Django's Lexer/Parser and Python's re engine are outside the TagParse model (the Lexer model of C09 covers parse_template's token stream); their exception classes and "
         "their time are observed, not proved; block tags nested hundreds deep overflow Django's recursive Parser (also stock {% if %}) - reported under observed_block_nesting, not judged",
-        "a %.0f s wall-clock watchdog on a child process stands for 'hang'; memory is the growth of the child's peak RSS (limit 256 MB, RLIMIT_AS 3 GB)" % WATCHDOG_S,
+        "%.0f s of CPU time for one call on an input of at most a few thousand characters stands for 'hang' (child process, ITIMER_PROF; wall time is never judged); memory is the growth of the child's peak RSS (limit 256 MB, RLIMIT_AS 3 GB)" % WATCHDOG_S,
     ]
     return chk.finish(
         rule="parse_tag: every string of <= %d atoms over the 18-atom syntax alphabet (quotes, brackets, braces, : , | = * ... _( ) backslash, space, a, /) "
@@ -917,7 +938,7 @@ def replay(path):
     elif kind == "scaling":
         fam = dict(T.FAMILIES_TAG, **T.FAMILIES_TPL)[case["family"]]
         f = fam if case["target"] != "template" or case["family"] in T.FAMILIES_TPL else (lambda n: "{% component 'x' " + fam(n) + " / %}")
-        cs = [{"target": case["target"], "text": _sized(f, case["n0"] * m), "reps": 3} for m in (1, 2, 4)]
+        cs = [{"target": case["target"], "text": _sized(f, n), "reps": 3} for n in case["sizes"][-3:]]
         print([(len(c["text"]), x["outcome"], x["secs"]) for c, x in zip(cs, T.run_cases(cs, limit=20.0))])
     elif kind == "detailed":
         print(impl_detailed(case["text"]))
